@@ -45,7 +45,8 @@ def c14():
     g2 = {"package": SERVER_PKG, "files": ["../C03/srv_env.go", "../C03/c03_routing.go", "c14_server.go"], "native_replay": False,
           "init_allow": SERVER_INIT, "stubs": server_stubs(pipe=False),
           "instances": [inst("VP_C14_DeadSession", {}, {"streams": [0, 1]}, expect_reach=["loop-ended"]),
-                        inst("VP_C14_StreamEnd", {}, expect_reach=["stream-ended"])]}
+                        inst("VP_C14_StreamEnd", {}, expect_reach=["stream-ended"]),
+                        inst("VP_C14_FailedHandshake", {}, {"peer": [0, 1, 2, 3, 4]}, expect_reach=["handshake-failed"])]}
     return {"property": "C14", "groups": [g1, g2],
             "bounds": {"pipes": "the real PipeData between two in-memory connections: either side closing first, orderly or by reset, after 0-2 (3) chunks of 1-2 arbitrary bytes, the other side having written 0-1 (2) chunks; the caller closes both ends when PipeData returns (as every caller in socketace does); quiescence report = goroutines blocked for ever",
                        "dead_session": "server accept loop after 0-1 finished logical connections, the session dying with io.ErrClosedPipe / io.EOF / os.ErrClosed / a reset / a timeout-class read error / smux.ErrTimeout (symbolic): AcceptStream may be called at most twice more and the loop goroutine must end",
